@@ -305,7 +305,7 @@ class Gen:
         raise Unrealisable("leaf " + k)
 
     # ---- trees
-    def node(self, t, v, in_container=False, key=False):
+    def node(self, t, v, in_container=False, key=False, top_name=None):
         k = t["k"]
         if not t["p"] and k not in ("carr",):
             return self.leaf(t, v, in_container, key)
@@ -361,7 +361,9 @@ class Gen:
                 else:
                     bit = self.nalt_bits
                     self.nalt_bits += 1
-                    oe = f"vh::perm2<{ot}>((alt >> {bit}) & 1, static_cast<{eot}>({kids[0].oexpr}), static_cast<{eot}>({kids[1].oexpr}))"
+                    src = top_name or e     # the source container itself (top level) / an identically built one (nested)
+                    oe = (f"vh::perm2<{ot}>(vh::sw(alt, {bit}, vh::first_is({src}, {kids[1].expr})), "
+                          f"static_cast<{eot}>({kids[0].oexpr}), static_cast<{eot}>({kids[1].oexpr}))")
                 return Val(ct, e, ot, oe, False, adj, calloc=len(kids) > 0)
             ot = f"{SEQ1[k]}<{eot}>"
             oe = f"{ot}{{{', '.join(x.oexpr for x in kids)}}}"
@@ -380,7 +382,7 @@ class Gen:
                        calloc=kid.calloc)
         if k in MAPS:
             kt, vt_ = t["p"]
-            multi = k in ("mmap", "ummap")
+            multi = k == "mmap"     # (unordered_multimap: keys kept distinct so that the source order is identifiable)
             if kt["k"] == "arith":
                 keys = self.key_arith_pair(kt["n"], len(v), multi)
             else:
@@ -419,7 +421,8 @@ class Gen:
                 else:
                     bit = self.nalt_bits
                     self.nalt_bits += 1
-                    oe = (f"vh::perm2<{ot}>((alt >> {bit}) & 1, {pt}({keys[0].oexpr}, {vals[0].oexpr}), "
+                    src = top_name or e
+                    oe = (f"vh::perm2<{ot}>(vh::sw(alt, {bit}, vh::first_is({src}, {keys[1].expr})), {pt}({keys[0].oexpr}, {vals[0].oexpr}), "
                           f"{pt}({keys[1].oexpr}, {vals[1].oexpr}))")
                 return Val(ct, e, ot, oe, False, adj, calloc=len(keys) > 0)
             ot = f"{MAPS[k]}<{kct}, {vot}>"
@@ -476,7 +479,7 @@ class Gen:
             bs = bytes(0 if b == 0 else self.nonnul(1)[0] for b in v)
             decl = f"char {name}[{n}] = {{{', '.join(chr_lit(b) for b in bs)}}};"
             return dict(decl=decl, ora=f"vh::view_n({name})", spec=r.choice(STR_SPECS), adj=0, ctype=f"char[{n}]")
-        x = self.node(t, v, False)
+        x = self.node(t, v, False, top_name=name)
         if x.decl:      # C array of T
             decl = f"{x.ctype} {name}[{x.decl[1]}] = {x.expr};"
             return dict(decl=decl, ora=name, spec=spec, adj=x.adj, ctype=f"{x.ctype}[{x.decl[1]}]")
@@ -544,7 +547,10 @@ def build_case(cid, beh, rng, consts, fresh=0, big=None, origin=""):
         for tp in tops:
             L.append("      " + tp["decl"])
         L.append(f"      h.stmt({si}, {has_str});")
-        L.append(f"      for (int alt = 0; alt < {nalt}; ++alt) {{ h.expect([&] {{ return vh::F({json.dumps(fmt)}, {oras}); }}); }}")
+        L.append(f"      auto ora = [&](int alt) {{ (void)alt; return vh::F({json.dumps(fmt)}, {oras}); }};")
+        L.append("      h.expect_strict([&] { return ora(-1); });")
+        if nalt > 1:
+            L.append(f"      for (int alt = 0; alt < {nalt}; ++alt) {{ h.expect_alt([&] {{ return ora(alt); }}); }}")
         L.append(f"      h.three_pass({names});")
         L.append(f"      h.log_begin({'sizeof(quill::LogLevel)' if dyn else '0'});")
         if fam == "dyn":
